@@ -22,6 +22,7 @@ EXPLANATION = (
     "variable bound in that function -- is not '#'.  R14.8 (=R20.5): the word finder consults the hard-keyword oracle only.  R14.9: the f-string test of real_code, folded over every tokenizer string prefix, keeps exactly the prefixes containing f/F.  Line-index inversion, the "
     "logical-line algorithm itself and the word/primary scanners are arithmetic over strings and are not decided."
     " R14.11: the language of rope's string-literal body pattern equals the tokenizer's, lookaheads included (exact, derivative engine sa/rederiv.py).  R14.12: the scanners feeding the bracket counters match all six bracket characters.  R14.13: in the logical-line scanner '#' and brackets act only on CFG paths where the in-string state was tested off."
+    ' R14.14 (=R06.9): returned text comes from the raw source.  R14.15: blank lines are skipped only between logical lines, never while one is open.'
 )
 ASSUMPTIONS = ["tokenize's own Comment pattern and _all_string_prefixes() are the oracle for the token language"]
 
